@@ -630,3 +630,60 @@ def discarded_exception_obligations(F, S, run):
     fx = [f for f in F.fixture_functions.values() if f.qn == "fixture::CheckTotal"]
     hit = bool(fx) and any(x.status == "violated" for x in discarded_exceptions(F, S, [], functions=fx)[0])
     run.fixture("fixtures/raw_read.cpp: `std::runtime_error(\"...\");` without throw is reported by R-ERR(discarded exception)", hit)
+
+
+# ------------------------------------------------------------------------------------------
+def observers_keep_no_state(F, S, fns, what):
+    """R-WRITESET: a query answers from the object (and its arguments) alone and leaves nothing behind: it stores to no data
+    member (a `mutable` cache written from a const function included) and to no namespace-scope variable. Otherwise a later
+    answer depends on which queries came before it. Returns (obligations, functions judged)."""
+    out = []
+    n = 0
+    for fn in sorted(fns, key=lambda f: f.key):
+        if not fn.cfg or fn.d.get("implicit"):
+            continue
+        n += 1
+        w = sorted(it for it in S.writes(fn) if it[0] in ("this", "this@", "global", "unknown"))
+        inst = "%s#keeps-no-state" % fn.key
+        req = "%s stores to no data member and to no namespace-scope variable: its answer cannot depend on earlier calls" % what
+        if not w:
+            out.append(ok("R-WRITESET", inst, fn.loc(fn.body), fn.qn, req, "nothing written besides its own locals and out-parameters", nontrivial=False))
+        else:
+            out.append(bad("R-WRITESET", inst, fn.loc(fn.body), fn.qn, req,
+                           "writes %s" % ", ".join("%s %s" % (x[0].rstrip("@"), x[1] if len(x) > 1 else "") for x in w)))
+    return out, n
+
+
+def extract_all_visits_every_member(F, S):
+    """R-MUSTCALL / R-GUARD: whole-archive extraction hands every member 0 .. GetCount()-1 to ExtractFile(i, Append(dir,
+    GetName(i))) and makes no refusal of its own: whatever names the archive lists are extracted (Append already refuses rooted
+    names). A refusal written here turns away members the listing reports."""
+    from .rules_stream import r_guard_exact
+    from .flow import Engine
+    ARCq = "OP2Utility::Archive::ArchiveFile"
+    fn = F.fn(ARCq + "::ExtractAllFiles", nparams=1)
+    out = r_guard_exact(F, Engine(F, S), fn, [], optional=True, no_other=True)
+    inst = ARCq + "::ExtractAllFiles#every-member"
+    req = "every member index below GetCount() is passed to ExtractFile inside one whole counting loop with no other way out"
+    loops = [nd for nd in fn.nodes if nd["k"] in ("ForStmt", "WhileStmt", "DoStmt", "CXXForRangeStmt")]
+    ex = [nd for nd in fn.nodes if nd["k"] == "CXXMemberCallExpr" and nd.get("fname") == "ExtractFile"]
+    if not (len(loops) == 1 and len(ex) == 1 and loops[0]["k"] == "ForStmt" and ex[0]["id"] in fn.subtree(loops[0]["body"])):
+        raise AnalysisBroken("ExtractAllFiles: member loop not recognised")
+    lp = loops[0]
+    ds = fn.n(lp["init"]).get("decls", []) if "init" in lp else []
+    c = fn.term(lp["cond"]) if "cond" in lp else None
+    if not (len(ds) == 1 and "init" in ds[0] and c is not None and c[0] == "op" and c[2] == ("var", ds[0]["n"], ds[0]["d"])):
+        raise AnalysisBroken("ExtractAllFiles: member loop not recognised")
+    good = fn.term(ds[0]["init"]) == ("const", 0) and c[1] == "<" \
+        and c[3] in (F.method_value(ARCq + "::GetCount", ("this",)), ("call", ARCq + "::GetCount", ("this",), ())) \
+        and fn.xterm(ex[0]["args"][0]) == c[2]
+    body = set(fn.subtree(lp["body"]))
+    good = good and not any(fn.n(x)["k"] in ("BreakStmt", "ContinueStmt", "ReturnStmt", "GotoStmt") for x in body)
+    from .rules_sib import enclosing_if_cond
+    cid, _t = enclosing_if_cond(fn, ex[0]["id"])
+    good = good and (cid is None or cid not in body)
+    if good:
+        out.append(ok("R-MUSTCALL", inst, fn.loc(ex[0]["id"]), fn.qn, req, "for (i = 0; i < GetCount(); ++i) ExtractFile(i, ...) unconditionally"))
+    else:
+        out.append(bad("R-MUSTCALL", inst, fn.loc(fn.body), fn.qn, req, "the loop does not run from 0 to GetCount(), the extraction is conditional, or the loop can be left early"))
+    return out
